@@ -18,7 +18,9 @@ CATS = ['Food', 'Bills & Utilities', 'Travel']
 SUBS = ['Sub One', 'Coffee', 'Fees #2']
 STATIC_TAGS = ['ta', 'TB', ' Tc ', 'x-y', 'Recurring', 'ta']
 DYN_TAGS = ['{field.proj}', '{ source }', '{extract(field.memo, "PROJ:(\\\\w+)")}', '{la}', '{nosuch}',
-            '{split(field.memo, ":", 1)}', '{field.kind if amount > 100 else ""}', '{regex_replace(field.proj, "\\\\W", "")}']
+            '{split(field.memo, ":", 1)}', '{field.kind if amount > 100 else ""}', '{regex_replace(field.proj, "\\\\W", "")}',
+            # braces INSIDE the expression (counted repetition): the tag is still one {expression}
+            '{extract(field.memo, "PROJ:(\\\\w{2})")}', '{extract(description, "([A-Za-z]{4,5})")}']
 AMOUNTS = [-250.5, -20.0, 0.0, 0.01, 5.0, 49.99, 50.0, 99.5, 100.0, 150.0, 1000.25]
 DATES = [datetime.date(2024, 1, 15), datetime.date(2024, 2, 29), datetime.date(2024, 12, 31), datetime.date(2025, 3, 8),
          datetime.date(2025, 12, 21), None]
@@ -246,10 +248,10 @@ def render(f, order=None, rnd=None):
     return '\n'.join(out) + '\n'
 
 
-def gen_txns(rnd, n, with_prefix):
+def gen_txns(rnd, n, with_prefix, toks=TOK):
     txns = []
     for _ in range(n):
-        words = [rnd.choice(TOK) for _ in range(rnd.choice([1, 2, 2, 3, 4]))]
+        words = [rnd.choice(toks) for _ in range(rnd.choice([1, 2, 2, 3, 4]))]
         if rnd.random() < 0.3:
             words = [w.lower() if rnd.random() < 0.5 else w.title() for w in words]
         desc = rnd.choice([' ', ' ', '  ', '-', ' * ']).join(words)
@@ -312,6 +314,35 @@ def observe_file(f, order, txns, path, rnd, tmpdir):
     return text, obs
 
 
+def _own_tags(rule, tt, observed):
+    """The rule's tags for this transaction as the statement defines them (lower-cased, non-empty; an {expression} tag replaced
+    by the value of the expression, dropped when empty or not evaluable), computed here - except when a dynamic tag reads a
+    let: binding of the rule (then the one-rule observation is all there is)."""
+    from tally import expr_parser
+    out = set()
+    for tag in rule['tags']:
+        t = tag.strip()
+        if not t:
+            continue
+        if not (t.startswith('{') and t.endswith('}')):
+            out.add(t.lower())
+            continue
+        inner = t[1:-1].strip()
+        if inner in ('la', 'lb', 'nosuch') or not inner:
+            if inner in ('la', 'lb'):
+                return observed
+            continue
+        try:
+            v = expr_parser.evaluate_transaction(inner, tt)
+        except expr_parser.ExpressionError:
+            continue
+        if v:
+            sv = str(v).strip().lower()
+            if sv:
+                out.add(sv)
+    return sorted(out)
+
+
 def reference(f, k, t):
     """Rule k on its own (same variables and transforms): a fresh engine per (rule, transaction)."""
     from tally.merchant_engine import parse_merchants
@@ -323,7 +354,7 @@ def reference(f, k, t):
     r = eng.match(tt)
     if not r.all_matching_rules:
         return {'out': 'N', 'rtags': [], 'xf': '{}'}, tt['description']
-    return {'out': 'T', 'rtags': sorted(r.tags), 'xf': _xf(r.extra_fields) if f['rules'][k]['cat'] else '{}'}, tt['description']
+    return {'out': 'T', 'rtags': _own_tags(f['rules'][k], tt, sorted(r.tags)), 'xf': _xf(r.extra_fields) if f['rules'][k]['cat'] else '{}'}, tt['description']
 
 
 def record_batch(seed, nfiles, focus, base_id=0):
@@ -391,3 +422,119 @@ def record_batch(seed, nfiles, focus, base_id=0):
         import shutil
         shutil.rmtree(tmpdir, ignore_errors=True)
     return recs, stats, names
+
+
+# ----------------------------------------------------------------------------------------------------------------------
+# Legacy CSV rule files (merchant_categories.csv): the tuple loop of normalize_merchant.  Here a rule's truth on a transaction
+# is NOT observed through tally: a CSV pattern is a Python regular expression searched case-insensitively in the description,
+# and its modifiers are comparisons on the amount and the date - both evaluated by the harness itself.
+def _csv_pattern(rnd, toks=TOK):
+    a, b = rnd.choice(toks), rnd.choice(toks)
+    forms = [a, '%s %s' % (a, b), '%s ?%s' % (a, b), '%s *%s' % (a, b), a + 'S?', a[:-1] + a[-1] + '{0,2}', '%s\\s*%s' % (a, b),
+             '%s\\s+%s' % (a, b), '%s.*%s' % (a, b), '(%s|%s)' % (a, b), '^%s' % a, '%s$' % b, '%s\\b' % a, '[%s%s]%s' % (a[0], b[0], a[1:]),
+             '%s-?%s' % (a[:2], a[2:]), '%s ?#?\\d*' % a, a.lower(), '%s\\d+' % a, '%s(?! %s)' % (a, b), '%s %s?' % (a, b),
+             'X?%s' % a, '%s( %s)?' % (a, b), '%s *' % a, '%s ?\\*? ?%s' % (a, b)]
+    return rnd.choice(forms)
+
+
+CSV_MODS = [('', None), ('', None), ('[amount>100]', ('gt', 100)), ('[amount>=99.5]', ('ge', 99.5)), ('[amount<50]', ('lt', 50)),
+            ('[amount<=0]', ('le', 0)), ('[amount=150]', ('eq', 150)), ('[amount:5-100]', ('range', 5, 100)), ('[amount<0]', ('lt', 0)),
+            ('[month=12]', ('month', 12)), ('[month=2]', ('month', 2)), ('[date=2024-02-29]', ('date', datetime.date(2024, 2, 29))),
+            ('[date:2024-01-01..2024-12-31]', ('drange', datetime.date(2024, 1, 1), datetime.date(2024, 12, 31))),
+            ('[amount>0][month=1]', ('and', ('gt', 0), ('month', 1)))]
+
+
+def _mod_true(m, amount, date):
+    if m is None:
+        return True
+    k = m[0]
+    if k == 'and':
+        return _mod_true(m[1], amount, date) and _mod_true(m[2], amount, date)
+    if k in ('month', 'date', 'drange'):
+        if date is None:
+            return False
+        return date.month == m[1] if k == 'month' else date == m[1] if k == 'date' else m[1] <= date <= m[2]
+    if k == 'gt':
+        return amount > m[1]
+    if k == 'ge':
+        return amount >= m[1]
+    if k == 'lt':
+        return amount < m[1]
+    if k == 'le':
+        return amount <= m[1]
+    if k == 'eq':
+        return abs(amount - m[1]) < 0.005        # amounts of the universe are never within a cent of a threshold without being equal
+    return m[1] <= amount <= m[2]
+
+
+def gen_csv_file(rnd, toks=TOK):
+    rules = []
+    for k in range(rnd.choice([1, 2, 3, 4, 6])):
+        pat = _csv_pattern(rnd, toks)
+        mtext, mabs = rnd.choice(CSV_MODS)
+        is_cat = rnd.random() < 0.75
+        tags = [rnd.choice(['ta', 'TB', 'x-y', 'Recurring']) for _ in range(rnd.choice([0, 0, 1, 2]) if is_cat else rnd.choice([1, 2]))]
+        rules.append({'pattern': pat, 'mods': mtext, 'mabs': mabs, 'mer': 'Merch %d' % (k + 1), 'cat': rnd.choice(CATS) if is_cat else '',
+                      'sub': rnd.choice(SUBS) if is_cat and rnd.random() < 0.5 else '', 'tags': tags})
+    return rules
+
+
+def render_csv(rules, order=None):
+    import csv as _csv
+    import io
+    buf = io.StringIO()
+    w = _csv.writer(buf, lineterminator='\n')
+    w.writerow(['Pattern', 'Merchant', 'Category', 'Subcategory', 'Tags'])
+    for k in (order if order is not None else range(len(rules))):
+        r = rules[k]
+        w.writerow([r['pattern'] + r['mods'], r['mer'], r['cat'], r['sub'], '|'.join(r['tags'])])
+    return buf.getvalue()
+
+
+def record_csv_batch(seed, nfiles):
+    import re
+    from tally.merchant_utils import get_all_rules, normalize_merchant
+    rnd = random.Random(seed)
+    tmpdir = tempfile.mkdtemp(prefix='engtrace_')
+    recs = []
+    stats = {'files': 0, 'records': 0, 'multi_match': 0, 'failing_rule': 0, 'ties': 0, 'tagonly_match': 0}
+    try:
+        for fi in range(nfiles):
+            toks = rnd.sample(TOK, 4)
+            rules = gen_csv_file(rnd, toks)
+            txns = gen_txns(rnd, rnd.choice([6, 10]), False, toks)
+            n = len(rules)
+            orders = [list(range(n))]
+            if n > 1:
+                orders.append(list(reversed(range(n))))
+            stats['files'] += 1
+            for vi, order in enumerate(orders):
+                text = render_csv(rules, order)
+                p = os.path.join(tmpdir, 'm%d.csv' % rnd.randrange(3))
+                with open(p, 'w', newline='') as fh:
+                    fh.write(text)
+                loaded = get_all_rules(p)
+                for j, t in enumerate(txns):
+                    m, c, s, info = normalize_merchant(t['description'], loaded, amount=t['amount'], txn_date=t['date'],
+                                                       data_source=t['source'], location=t['location'])
+                    matched = c != 'Unknown' or s != 'Unknown' or bool(info and info.get('pattern'))
+                    rr = []
+                    for k in order:
+                        r = rules[k]
+                        hit = bool(re.search(r['pattern'], t['description'], re.IGNORECASE)) and _mod_true(r['mabs'], t['amount'], t['date'])
+                        rr.append({'cat': r['cat'], 'sub': r['sub'] if r['cat'] else '', 'mer': r['mer'], 'spec': [50, 0, 0, 0],
+                                   'out': 'T' if hit else 'N', 'rtags': sorted({x.lower() for x in r['tags']}) if hit else [], 'xf': '{}',
+                                   'rid': k + 1, 'tagsub': False})
+                    recs.append({'kind': 'match', 'id': 'csv:%d:%d:%d:%d' % (seed, fi, vi, j), 'mode': 'first_match', 'path': 'legacy_csv',
+                                 'hasidx': False, 'rules': rr,
+                                 'obs': {'matched': matched, 'cat': c, 'sub': s if (matched and s) or not matched else '', 'mer': m if matched else '',
+                                         'tags': sorted((info or {}).get('tags', [])), 'xf': '{}', 'matching': [], 'win': 0, 'subwin': 0},
+                                 '_text': text, '_txn': dict(t, date=str(t['date'])), '_order': order})
+                    hits = [x for x in rr if x['out'] == 'T']
+                    stats['records'] += 1
+                    stats['multi_match'] += len([x for x in hits if x['cat']]) >= 2
+                    stats['tagonly_match'] += any(not x['cat'] for x in hits)
+    finally:
+        import shutil
+        shutil.rmtree(tmpdir, ignore_errors=True)
+    return recs, stats, []
